@@ -46,6 +46,19 @@ def handleMrg (toks : List String) : String :=
     | _, _ => "bad-op"
   | _ => "bad-op"
 
-def C06Race.handlers : List (String × (List String → String)) := [("syn", handleSyn), ("mrg", handleMrg)]
+/-- `mpf <nflushers> <nreaders>`: threads that each record and then call `MeterProvider::ForceFlush` (C02).  For EVERY
+    interleaving the fan-out model (`Model/Fanout.lean`: a provider flush goes over every child once and returns the
+    conjunction) serialized by `forceflush_lock_` predicts: every call returns true and the readers are flushed
+    `nflushers * nreaders` times in total. -/
+def handleMpf (toks : List String) : String :=
+  match splitOps toks with
+  | [nfl, nrd] :: _ =>
+    match nfl.toNat?, nrd.toNat? with
+    | some nfl, some nrd =>
+      if nfl = 0 ∨ nfl > 3 ∨ nrd = 0 ∨ nrd > 2 then "bad-op" else s!"done=1 calls={nfl * nrd} rets={nfl}"
+    | _, _ => "bad-op"
+  | _ => "bad-op"
+
+def C06Race.handlers : List (String × (List String → String)) := [("syn", handleSyn), ("mrg", handleMrg), ("mpf", handleMpf)]
 
 end Driver
